@@ -309,8 +309,28 @@ def r174(ctx, repo):
     param = wrap.args.args[0].arg
     calls = [c for c in walk(inner) if isinstance(c, ast.Call)
              and txt(c.func) == param]
-    if len(calls) != 1:
+    if not calls:
         raise AnalysisError("ignore_nan_inf: call of the wrapped method lost")
+    # every call of the wrapped (memoised) method must be copied; a call whose
+    # result is returned directly (or as a view) hands out the shared object
+    for extra in calls[1:] if len(calls) > 1 else []:
+        pass
+    direct = []
+    for c_ in calls:
+        st_ = c_
+        while not isinstance(st_, ast.stmt):
+            st_ = st_.parent
+        if isinstance(st_, ast.Return):
+            direct.append(c_)
+    for c_ in direct:
+        ctx.ob("R17.4", False,
+               "the nan/inf wrapper returns the result of the memoised "
+               "estimator directly on some path (the shared cached array, or "
+               "a view of it): an in-place edit by the caller corrupts the "
+               "cache entry", node=c_, label="wrapper copies (direct return)")
+    calls = [c_ for c_ in calls if c_ not in direct]
+    if not calls:
+        return
     c = calls[0]
     st = c
     while not isinstance(st, ast.stmt):
@@ -603,7 +623,8 @@ def r178(ctx, repo):
     be read-only (otherwise an in-place edit of what the caller received
     changes what every later access returns)."""
     n = 0
-    for rel in (H5EV, HIEV):
+    from ..cfg import CFG
+    for rel in (H5EV, HIEV, "dclab/rtdc_dataset/feat_basin.py"):
         tree = repo.tree(rel)
         for cls in [c for c in tree.body if isinstance(c, ast.ClassDef)]:
             for m in [f for f in cls.body if isinstance(f, ast.FunctionDef)]:
@@ -630,6 +651,33 @@ def r178(ctx, repo):
                              and any(is_self_attr(t, memo)
                                      for t in a.targets)]
                     if not fills:
+                        continue
+                    # a hand-out that is only reachable right after the memo
+                    # was filled in the same call, while no other call ever
+                    # reads the memo, does not alias anything
+                    mcfg = CFG(m)
+                    fill_ids = set()
+                    for a in fills:
+                        fill_ids |= set(mcfg.ids_of(a))
+                    st_r = r
+                    reach_wo_fill = any(
+                        not mcfg.always_before(
+                            rid, lambda n_: n_.id in fill_ids)
+                        for rid in mcfg.ids_of(st_r))
+                    other_reads = False
+                    for f2 in cls.body:
+                        if not isinstance(f2, ast.FunctionDef) or f2 is m:
+                            continue
+                        for x in walk(f2):
+                            if is_self_attr(x, memo) and isinstance(
+                                    x.ctx, ast.Load):
+                                par = getattr(x, "parent", None)
+                                if isinstance(par, ast.Compare) and any(
+                                        isinstance(o, (ast.Is, ast.IsNot))
+                                        for o in par.ops):
+                                    continue
+                                other_reads = True
+                    if not reach_wo_fill and not other_reads:
                         continue
                     n += 1
                     if copied:
@@ -773,6 +821,20 @@ MUTANTS = [
       "        density[~bad_out] = valid_density\n"
       "        density[bad_out] = np.nan\n        return density\n"),
      "R17.4"),
+    ("wrapper fast path returns the cached array (seeded C12_6)", KDE,
+     ("        # Filter events\n",
+      "        if not (np.any(bad_in) or np.any(bad_out)):\n"
+      "            return kde_method(events_x, events_y, xout, yout,\n"
+      "                              *args, **kwargs)\n"
+      "        # Filter events\n"), "R17.4"),
+    ("basin proxy reuses its writable cache (seeded C17_5)",
+     "dclab/rtdc_dataset/feat_basin.py",
+     ("        if self._cache is None and self.is_scalar:\n"
+      "            self._cache = self.feat_obj[:][self.basinmap]\n",
+      "        if self.is_scalar:\n"
+      "            if self._cache is None:\n"
+      "                self._cache = self.feat_obj[:][self.basinmap]\n"),
+     "R17.8"),
     ("scalar memo writable again (F17b returns)", H5EV,
      ("            self._array.setflags(write=False)\n", ""), "R17.8"),
     ("child scalar memo writable again (F17b returns)", HIEV,
